@@ -662,6 +662,9 @@ pub fn c15_histories() -> Vec<History> {
         // the value of the second write carries the byte image of a complete log record (a batch
         // `put f = GHOST`) where a reader that trusts a damaged length field would resume
         mk("wal-value-embeds-a-log-record", "D", vec![Put(0, 0), Put(1, 11), Put(0, 0)]),
+        // the first record of the log spans two blocks; the part of its value that lands in the
+        // second fragment reads as a serialized batch `put f = GHOST`
+        mk("wal-second-fragment-reads-as-a-batch", "D", vec![Put(1, 12), Put(0, 0)]),
         mk("noreuse-manifest-snapshot", "T300n", vec![Put(0, 0), Flush, Put(1, 0), Flush, Reopen(0), Put(2, 0), Flush, Reopen(0), Put(0, 0)]),
         // files on six levels, a manifest with many trivial-move and compaction edits
         mk(
